@@ -66,7 +66,11 @@ pub fn parse_rule(t: &mut Toks, tag: &str, id: &str) -> AnyRule {
             let metric = if t.u64() == 0 { hotspot::MetricType::Concurrency } else { hotspot::MetricType::QPS };
             let ctrl = if t.u64() == 0 { hotspot::ControlStrategy::Reject } else { hotspot::ControlStrategy::Throttling };
             let idx = t.i64() as isize;
-            let key = if t.u64() == 0 { String::new() } else { "k1".to_string() };
+            let key = match t.u64() {
+                0 => String::new(),
+                1 => "k1".to_string(),
+                _ => " k1 ".to_string(), // surrounding blanks: the key is trimmed before it is looked up
+            };
             let (thr, maxq, burst, dur, cap) = (t.u64(), t.u64(), t.u64(), t.u64(), t.usize());
             let ns = t.usize();
             let mut spec = HashMap::new();
